@@ -30,7 +30,7 @@ pub fn gen_test_should_have_consistent_len_char_boundaries(
     Some(quote!(
         #[test]
         fn should_have_consistent_len_char_boundaries() {
-            assert!(#len_char_max >= #len_char_min, #msg);
+            assert!(#len_char_max >= #len_char_min, "{}", #msg);
         }
     ))
 }
